@@ -3,6 +3,7 @@
 
 mod child;
 mod forked;
+mod gen;
 mod minimise;
 mod oracle;
 mod pipeline;
@@ -39,7 +40,7 @@ fn env_seed() -> u64 {
     std::env::var("VERIF_SEED").ok().and_then(|s| s.trim().parse::<u64>().ok()).unwrap_or(1)
 }
 
-const ALL_STRATA: &str = "crash,preempt,siblings,duel,long,random";
+const ALL_STRATA: &str = "crash,preempt,siblings,duel,long,gen,random";
 
 /// Commands that execute the code under test (through the fork server).
 const SIM_CMDS: [&str; 7] = ["child", "solo-slice", "mkreplay", "replay-inner", "solo", "forkbench", "hashes"];
@@ -185,6 +186,7 @@ fn main() {
                 sched::Outcome::Returned(o) => {
                     println!("{}", o.code);
                     println!("// sig: {}", o.sig);
+                    println!("// spans: {}", o.spans);
                     for d in &o.diags {
                         println!("// diag: {d}");
                     }
@@ -227,7 +229,14 @@ fn main() {
                 if run % of != index {
                     continue;
                 }
-                let (plan, script) = world.plan(&stratum, run);
+                let (mut plan, script) = world.plan(&stratum, run);
+                if stratum == "gen" {
+                    let prep = child::prepare_gen(&mut plan, &mut refs);
+                    if plan.tasks.is_empty() {
+                        println!("{stratum} {run} empty generated={} unparseable={} violations={}", prep.generated, prep.unparseable, prep.violations.len());
+                        continue;
+                    }
+                }
                 match oracle::run_forked(&plan, if script.is_empty() { None } else { Some(&script) }, &mut refs) {
                     Ok(rec) => println!("{stratum} {run} {:016x} {:016x} {} {}", rec.log_hash, rec.interleaving, rec.trace.len(), rec.checked.violations.len()),
                     Err(d) => println!("{stratum} {run} died: {d}"),
